@@ -25,9 +25,10 @@ ID = "C18"
 LEVEL = "exploration"
 RULE = (
     "Static: exhaustive ast scan of every module of src/rp2 (enumerated at run time) against a deny-list of network / "
-    "process modules and calls. Dynamic: Hypothesis-generated CLI runs under sys.addaudithook - two thirds valid inputs "
-    "from C16's generator (all entry points, methods, languages, windows, -n, -a, -p), one third faulty inputs from C12's "
-    "catalogue; events judged: socket.*, ssl.*, http/urllib/ftp/smtp, subprocess.Popen, os.system/exec/spawn/fork, open "
+    "process modules and calls. Dynamic: Hypothesis-generated CLI runs under sys.addaudithook - half valid inputs "
+    "from C16's generator (all entry points, methods, languages, windows, -n, -a, -p), half faulty inputs from C12's "
+    "catalogue (every rejection path, RP2Error or not, is a code path of its own); decoy files named like the reports planted "
+    "in the working directory, $HOME and a sibling of the output directory; events judged: socket.*, ssl.*, http/urllib/ftp/smtp, subprocess.Popen, os.system/exec/spawn/fork, open "
     "for writing, os.remove/rename/mkdir/rmdir/chmod/truncate/link, shutil.*, tempfile.*, importlib.import_module from "
     "rp2 frames; input files hashed before/after. Every run is non-trivial; distinct by case hash."
 )
@@ -44,12 +45,12 @@ DENY_CALLS = {"system", "popen", "execl", "execle", "execlp", "execlpe", "execv"
 
 
 def budget(tier: str) -> Dict[str, Any]:
-    return {"shards": 16, "examples": 8 if tier == "quick" else 125, "shrink": False}
+    return {"shards": 16, "examples": 24 if tier == "quick" else 250, "shrink": False}
 
 
 @st.composite
 def strategy_case(draw: Any) -> Dict[str, Any]:
-    if draw(st.integers(0, 2)) == 0:
+    if draw(st.booleans()):
         case = draw(c12.strategy_case())
         case["mode"] = "invalid"
         case["check_base"] = False
